@@ -2,6 +2,7 @@ package explore
 
 import (
 	"fmt"
+	"regexp"
 	"sort"
 	"strings"
 
@@ -99,10 +100,13 @@ func siteKey(s string) string {
 	return f
 }
 
+var idRe = regexp.MustCompile(`\[[^\]]*\]|0x[0-9a-f]+`)
+
 func short(s string) string {
 	if i := strings.IndexByte(s, '\n'); i >= 0 {
 		s = s[:i]
 	}
+	s = idRe.ReplaceAllString(s, "[..]") // run-dependent ids (scope ids, addresses) are not part of the signature
 	if len(s) > 70 {
 		s = s[:70]
 	}
@@ -142,6 +146,22 @@ func RunProgram(c *fw.Ctx, p *Program) bool {
 		}, 5)
 		if cerr != nil || !stable {
 			c.Count("unstable_candidates", 1)
+			if c.SetLen("unstable_examples") < 5 {
+				var kinds []string
+				for i := 0; i < 4; i++ {
+					y, e2 := RunOnce(&ropt, x.Choices, p.Body)
+					if e2 != nil {
+						kinds = append(kinds, "ERR:"+e2.Error())
+						continue
+					}
+					if w := verdict(p, y); w != nil {
+						kinds = append(kinds, w.Kind)
+					} else {
+						kinds = append(kinds, "ok")
+					}
+				}
+				c.SetAdd("unstable_examples", fmt.Sprintf("%s first=%s reruns=%v err=%v", p.Name, v.Kind, kinds, cerr))
+			}
 			return true
 		}
 		c.Violate(&fw.Violation{Property: p.Prop, Clause: v.Clause, Signature: sig,
@@ -158,8 +178,12 @@ func RunProgram(c *fw.Ctx, p *Program) bool {
 	c.R.Transitions += st.Steps
 	c.R.States += st.TraceKinds
 	c.R.Distinct += st.TraceKinds
-	if c.Shard == 0 {
+	if c.Shard == 0 || p.Opt.NoShard {
 		c.R.Programs++
+	}
+	c.Count("hb_pruned_subtrees", st.Pruned)
+	if len(c.R.Info) < 400 {
+		c.R.Info["execs:"+p.Name] = st.Execs
 	}
 	c.Max("choice_points", int64(st.MaxPoints))
 	c.Max("steps", int64(st.MaxSteps))
